@@ -11,7 +11,7 @@ use serde_json::json;
 
 pub const ID: &str = "C09";
 
-pub const RULE: &str = "cases = (operator table, token string, table representation). Tables of 1..6 operators over the symbols + - * ! ^ ~ with binding powers 0..3 and fixities prefix / postfix / infix-left / infix-right, one operator in five written as the symbol doubled (`--`: a multi-token operator parser, which fails after consuming a token on `-a`); 70% 'plain' tables (at most one operator per symbol and fixity, never postfix and infix on one symbol, left- and right-associative infix never at one power), 30% unrestricted (duplicates, postfix+infix on one symbol, mixed associativity at one level: decided by declaration order); atoms a, b and parenthesised sub-expressions (recursive). Token strings: ALL strings over (atoms, used symbols, one foreign symbol, parentheses when used) up to length L for every table of the exhaustive tier, derived well-formed expressions with 0..2 edits and random strings up to length 40 in the random tier. Each table is built as a Vec of boxed operators, as a tuple of boxed operators and (for the 9 tables of the static catalogue) as a tuple of plain, unboxed operators; parse and check. Oracle: an independently written textbook binding-power evaluator over the table DESCRIPTION (prefix chain or atom; then repeatedly: the first postfix operator, in declaration order, that binds at least as tightly as the context; else the first infix operator that binds at least as tightly AND has a right operand, otherwise the operator stays unconsumed; equal powers resolved by associativity): compared on acceptance, the fully parenthesised tree and the consumed length (observed by following the expression with a rest-capturing parser). Oracle-free: flattening the tree yields exactly the consumed tokens in order; the three table representations and check mode agree; every fold callback's e.span() covers exactly the flattened leaves of the sub-expression it builds and its e.state() equals the fold of the tokens before its end (C07 / C18 for Pratt). NON-TRIVIAL = the expression contains two operators of equal power, or a unary operator next to a binary one on the same operand, or an infix operator whose right operand is missing; distinct = distinct (table, string).";
+pub const RULE: &str = "cases = (operator table, token string, table representation). Tables of 1..6 operators over the symbols + - * ! ^ ~ with four binding-power levels per table (mapped order-preservingly onto 0..3, onto values around 2^15 where a doubled power needs 17 bits, or onto the top of the u16 range) and fixities prefix / postfix / infix-left / infix-right, one operator in five written as the symbol doubled (`--`: a multi-token operator parser, which fails after consuming a token on `-a`); 70% 'plain' tables (at most one operator per symbol and fixity, never postfix and infix on one symbol, left- and right-associative infix never at one power), 30% unrestricted (duplicates, postfix+infix on one symbol, mixed associativity at one level: decided by declaration order); atoms a, b and parenthesised sub-expressions (recursive). Token strings: ALL strings over (atoms, used symbols, one foreign symbol, parentheses when used) up to length L for every table of the exhaustive tier, derived well-formed expressions with 0..2 edits and random strings up to length 40 in the random tier. Each table is built as a Vec of boxed operators, as a tuple of boxed operators and (for the 9 tables of the static catalogue) as a tuple of plain, unboxed operators; parse and check. Oracle: an independently written textbook binding-power evaluator over the table DESCRIPTION (prefix chain or atom; then repeatedly: the first postfix operator, in declaration order, that binds at least as tightly as the context; else the first infix operator that binds at least as tightly AND has a right operand, otherwise the operator stays unconsumed; equal powers resolved by associativity): compared on acceptance, the fully parenthesised tree and the consumed length (observed by following the expression with a rest-capturing parser). Oracle-free: flattening the tree yields exactly the consumed tokens in order; the three table representations and check mode agree; every fold callback's e.span() covers exactly the flattened leaves of the sub-expression it builds and its e.state() equals the fold of the tokens before its end (C07 / C18 for Pratt). NON-TRIVIAL = the expression contains two operators of equal power, or a unary operator next to a binary one on the same operand, or an infix operator whose right operand is missing; distinct = distinct (table, string).";
 
 pub const ASSUMPTIONS: &[&str] = &[
     "the reference evaluator (this file, `reference`) is written from the textbook algorithm and the statement; powers: an operator of power p captures an operand only if the operand's operators bind at least as tightly",
@@ -399,6 +399,11 @@ fn static_catalogue<'a>() -> Vec<(Table, P<'a>)> {
             tb(vec![dw('-', Fix::Prefix, 2), d('-', Fix::Prefix, 1), dw('*', Fix::Right, 2), d('-', Fix::Left, 1), d('*', Fix::Left, 2)]),
             a().pratt((pre!(@ 2, oppw!('-', "--")), pre!(1, '-'), inf!(@ right(2), oppw!('*', "**")), inf!(left(1), '-'), inf!(left(2), '*'))).boxed(),
         ),
+        // powers from the upper half of the u16 range (2 * power + 1 needs 17 bits)
+        (
+            tb(vec![d('-', Fix::Prefix, 40000), d('+', Fix::Left, 10000), d('*', Fix::Left, 20000), d('!', Fix::Postfix, 50000), d('^', Fix::Right, 65535), d('~', Fix::Prefix, 32768)]),
+            a().pratt((pre!(40000, '-'), inf!(left(10000), '+'), inf!(left(20000), '*'), post!(50000, '!'), inf!(right(65535), '^'), pre!(32768, '~'))).boxed(),
+        ),
     ]
 }
 
@@ -556,13 +561,17 @@ const SYMS: &[char] = &['+', '-', '*', '!', '^', '~'];
 
 fn gen_table(t: &mut Tape, plain: bool) -> Table {
     let n = 1 + t.weighted(&[2, 3, 3, 2, 1, 1]);
+    // the statement says "arbitrary binding powers": four LEVELS per table, mapped order-preservingly onto the u16 range
+    // (small values; values around the point where a doubled power no longer fits 16 bits; the top of the range)
+    const SCALES: [[u16; 4]; 6] = [[0, 1, 2, 3], [0, 1, 2, 3], [0, 1, 2, 3], [1, 16383, 32768, 65535], [10000, 20000, 40000, 60000], [32767, 32768, 32769, 65535]];
+    let scale = SCALES[t.pick(SCALES.len())];
     let mut ops: Vec<OpD> = vec![];
     let mut guard = 0;
     while ops.len() < n && guard < 60 {
         guard += 1;
         let sym = SYMS[t.pick(SYMS.len())];
         let fix = [Fix::Prefix, Fix::Postfix, Fix::Left, Fix::Left, Fix::Right][t.pick(5)];
-        let power = t.pick(4) as u16;
+        let power = scale[t.pick(4)];
         let wide = t.chance(1, 5);
         let o = OpD { sym, fix, power, wide };
         if plain {
